@@ -1,7 +1,7 @@
 //! Direction A: drive the real interpreter with seeded random programs and record every step
 //! through the H1 hook; the NDJSON trace is validated against Machine.tla by TLC (TraceInterp).
 
-use crate::exec::{self, Vm, HELPERS};
+use crate::exec::{self};
 use crate::util::*;
 use serde_json::{json, Value};
 use std::cell::RefCell;
@@ -91,10 +91,21 @@ fn gen_structured(r: &mut Rng, pkt_len: usize, helpers: &[i32]) -> Vec<(u8, u8, 
             }
         } else if choice < 90 && !helpers.is_empty() {
             let id = *r.pick(helpers);
-            p.push((0xbf, 1, 7, 0, 0));
-            p.push((0xbf, 2, 8, 0, 0));
-            p.push((0xbf, 3, 9, 0, 0));
-            p.push((0xb7, 4, 0, 0, rnd_imm(r)));
+            if pkt_len >= 9 && r.chance(1, 3) {
+                // "poke": the helper stores the low n bytes of r2 at r1 (a pointer into what r6
+                // points to); later loads and the final memory image must show them
+                let n = 1 + r.below(8) as usize;
+                p.push((0xbf, 1, 6, 0, 0));
+                p.push((0x07, 1, 0, 0, r.below((pkt_len - n + 1) as u64) as i32));
+                p.push((0xbf, 2, 8, 0, 0));
+                p.push((0xb7, 3, 0, 0, exec::POKE_MAGIC as i32));
+                p.push((0xb7, 4, 0, 0, n as i32));
+            } else {
+                p.push((0xbf, 1, 7, 0, 0));
+                p.push((0xbf, 2, 8, 0, 0));
+                p.push((0xbf, 3, 9, 0, 0));
+                p.push((0xb7, 4, 0, 0, rnd_imm(r)));
+            }
             p.push((0xb7, 5, 0, 0, rnd_imm(r)));
             p.push((0x85, 0, 0, 0, id));
             // r1-r5 are undefined now: redefine the ones the generator uses
@@ -302,9 +313,10 @@ pub fn record_run(case: &Value) -> Value {
         true
     })));
     let ev3 = events.clone();
-    exec::set_helper_observer(Some(Box::new(move |id, args, ret| {
+    exec::set_helper_observer(Some(Box::new(move |id, args, ret, wr| {
         ev3.borrow_mut().push(json!({"e": "helper", "id": id as i32,
-            "args": args.iter().map(|x| word_json(*x)).collect::<Vec<_>>(), "ret": word_json(ret)}));
+            "args": args.iter().map(|x| word_json(*x)).collect::<Vec<_>>(), "ret": word_json(ret),
+            "wr": wr.iter().map(|(a, b)| json!({"addr": word_json(*a), "bytes": b})).collect::<Vec<_>>()}));
     })));
     let obs = exec::run_case_with_hook(case, "interp", false);
     rbpf::verif::set_step_hook(None);
